@@ -14,6 +14,8 @@ import (
 	"strings"
 
 	sdccache "github.com/sdcio/cache/pkg/cache"
+	"github.com/sdcio/data-server/pkg/cache"
+	"github.com/sdcio/data-server/pkg/tree"
 	"github.com/sdcio/data-server/pkg/verifrt"
 	sdcpb "github.com/sdcio/sdc-protos/sdcpb"
 )
@@ -27,6 +29,7 @@ type v14Leaf struct {
 	strs   []string
 	isUint bool
 	keyVal string // non-empty: key leaf, value fixed
+	state  bool   // kept in the STATE store (else CONFIG)
 
 	pres bool
 	u    uint64
@@ -54,8 +57,9 @@ func v14NewLeaf(tag, ifname, leaf string, isUint bool) *v14Leaf {
 }
 
 // v14Universe: list entries with prefix-related keys (lo1 / lo10).
-// param "universe": 0 = mtu + key leaf of both entries, 1 = additionally a
-// description (string) leaf on each entry.
+// param "universe": 0 = mtu + key leaf of both entries (CONFIG store);
+// 1 = additionally one leaf in the STATE store (description of lo10);
+// 2 = additionally a description (string) leaf on lo1 in the CONFIG store.
 func v14Universe() []*v14Leaf {
 	ls := []*v14Leaf{
 		v14NewLeaf("L0", "lo1", "mtu", true),
@@ -64,9 +68,12 @@ func v14Universe() []*v14Leaf {
 		v14NewLeaf("L3", "lo10", "name", false),
 	}
 	if verifrt.Param("universe", 0) >= 1 {
-		ls = append(ls,
-			v14NewLeaf("L4", "lo1", "description", false),
-			v14NewLeaf("L5", "lo10", "description", false))
+		s := v14NewLeaf("S0", "lo10", "description", false)
+		s.state = true
+		ls = append(ls, s)
+	}
+	if verifrt.Param("universe", 0) >= 2 {
+		ls = append(ls, v14NewLeaf("L4", "lo1", "description", false))
 	}
 	return ls
 }
@@ -92,9 +99,10 @@ func v14Arbitrary(ls []*v14Leaf, prefix string) {
 
 // v14Request is a requested path set.
 type v14Request struct {
-	name    string
-	paths   []*sdcpb.Path
-	unknown bool // names a node the schema does not have
+	name       string
+	paths      []*sdcpb.Path
+	unknown    bool // names a node the schema does not have
+	unknownKey bool // names a key the list does not have
 }
 
 func v14Requests() []*v14Request {
@@ -107,6 +115,7 @@ func v14Requests() []*v14Request {
 		{name: "unknown-leaf", paths: []*sdcpb.Path{vPath(vPE("interface", "name", "lo1"), vPE("nosuchleaf"))}, unknown: true},
 		{name: "entry-lo10+leaf-lo1-mtu", paths: []*sdcpb.Path{vPath(vPE("interface", "name", "lo10")), vPath(vPE("interface", "name", "lo1"), vPE("mtu"))}},
 		{name: "known+unknown", paths: []*sdcpb.Path{vPath(vPE("interface", "name", "lo1")), vPath(vPE("nosuchcontainer"))}, unknown: true},
+		{name: "unknown-key-name", paths: []*sdcpb.Path{vPath(vPE("interface", "nosuchkey", "lo1"))}, unknown: true, unknownKey: true},
 	}
 }
 
@@ -146,6 +155,9 @@ func (r *v14Request) covers(p *sdcpb.Path) bool {
 }
 
 func (r *v14Request) bytePrefix(p *sdcpb.Path) bool {
+	if r.covers(p) {
+		return false
+	}
 	for _, q := range r.paths {
 		if v14BytePrefix(q, p) {
 			return true
@@ -155,41 +167,45 @@ func (r *v14Request) bytePrefix(p *sdcpb.Path) bool {
 }
 
 // v14Get calls Datastore.Get the way server.GetData does: unbuffered channel,
-// a collector on the other side.
-func v14Get(env *vEnv, req *sdcpb.GetDataRequest) ([]*sdcpb.GetDataResponse, error) {
+// a collector on the other side. A panic inside Get is caught so that the
+// oracle can name the situation.
+func v14Get(env *vEnv, req *sdcpb.GetDataRequest) (msgs []*sdcpb.GetDataResponse, gerr error, panicked bool) {
 	nCh := make(chan *sdcpb.GetDataResponse)
 	done := make(chan struct{})
-	var gerr error
 	go func() {
 		defer close(done)
+		defer func() {
+			if r := recover(); r != nil {
+				panicked = true
+			}
+		}()
 		gerr = env.ds.Get(context.Background(), req, nCh)
 	}()
-	var msgs []*sdcpb.GetDataResponse
 	for m := range nCh {
 		msgs = append(msgs, m)
 	}
 	<-done
-	return msgs, gerr
+	return msgs, gerr, panicked
 }
 
-// v14SameValue: tv carries the stored value of l (number as number or as its
+// v14SameValue: tv carries the value (u / s) of l (number as number or as its
 // decimal text: the encodings may differ in representation, not in content).
-func v14SameValue(l *v14Leaf, tv *sdcpb.TypedValue) bool {
+func v14SameValue(l *v14Leaf, tv *sdcpb.TypedValue, u uint64, s string) bool {
 	switch x := tv.GetValue().(type) {
 	case *sdcpb.TypedValue_UintVal:
-		return verifrt.And(l.isUint, x.UintVal == l.u)
+		return verifrt.And(l.isUint, x.UintVal == u)
 	case *sdcpb.TypedValue_StringVal:
 		if l.isUint {
-			return x.StringVal == strconv.FormatUint(l.u, 10)
+			return x.StringVal == strconv.FormatUint(u, 10)
 		}
-		return x.StringVal == l.s
+		return x.StringVal == s
 	}
 	return false
 }
 
 // v14AssertUpdates: the per-leaf messages (STRING / PROTO) are exactly the
-// stored leaves the request covers.
-func v14AssertUpdates(ls []*v14Leaf, r *v14Request, msgs []*sdcpb.GetDataResponse) {
+// leaves accepted by sel that the request covers.
+func v14AssertUpdates(ls []*v14Leaf, sel func(*v14Leaf) bool, r *v14Request, msgs []*sdcpb.GetDataResponse) {
 	count := map[string]int{}
 	for _, m := range msgs {
 		for _, n := range m.GetNotification() {
@@ -206,6 +222,10 @@ func v14AssertUpdates(ls []*v14Leaf, r *v14Request, msgs []*sdcpb.GetDataRespons
 					verifrt.Assert(false, "C14-delivered-leaf-is-stored")
 					continue
 				}
+				if !sel(leaf) {
+					verifrt.Assert(false, "C14-no-leaf-of-another-store")
+					continue
+				}
 				if !r.covers(leaf.path) {
 					if r.bytePrefix(leaf.path) {
 						// the entry's key textually extends the requested entry's key
@@ -216,53 +236,72 @@ func v14AssertUpdates(ls []*v14Leaf, r *v14Request, msgs []*sdcpb.GetDataRespons
 					continue
 				}
 				count[leaf.tag]++
-				verifrt.Assert(v14SameValue(leaf, u.GetValue()), "C14-value-as-stored")
+				verifrt.Assert(v14SameValue(leaf, u.GetValue(), leaf.u, leaf.s), "C14-value-as-stored")
 			}
 		}
 	}
 	for _, l := range ls {
-		if l.pres && r.covers(l.path) {
+		if l.pres && sel(l) && r.covers(l.path) {
 			verifrt.Assert(count[l.tag] >= 1, "C14-every-leaf-below-request-returned")
 			verifrt.Assert(count[l.tag] <= 1, "C14-leaf-returned-once")
 		}
 	}
 }
 
-// v14Json renders the leaves selected by keep as the JSON document the tree
-// produces: {"interface":[{<members sorted by name>}, ...]} with entries in key
-// order; ietf prefixes the top-level member with the module name.
-func v14Json(ls []*v14Leaf, keep func(*v14Leaf) bool, ietf bool) string {
-	ifnames := []string{}
-	type member struct{ name, text string }
-	members := map[string][]member{}
+// v14JsonEntry is one rendered list entry: member name -> rendered JSON value.
+type v14JsonEntry struct {
+	ifname  string
+	members map[string]string
+}
+
+// v14JsonEntries: the list entries a JSON document must hold for the leaves
+// accepted by keep. The key member is part of every rendered entry: it is
+// implied by the path of the returned leaves.
+func v14JsonEntries(ls []*v14Leaf, keep func(*v14Leaf) bool) []*v14JsonEntry {
+	var out []*v14JsonEntry
 	for _, l := range ls {
 		if !l.pres || !keep(l) {
 			continue
 		}
-		if _, ok := members[l.ifname]; !ok {
-			ifnames = append(ifnames, l.ifname)
+		var e *v14JsonEntry
+		for _, x := range out {
+			if x.ifname == l.ifname {
+				e = x
+			}
 		}
-		var v string
+		if e == nil {
+			e = &v14JsonEntry{ifname: l.ifname, members: map[string]string{"name": "\"" + l.ifname + "\""}}
+			out = append(out, e)
+		}
 		if l.isUint {
-			v = strconv.FormatUint(l.u, 10)
+			e.members[l.leaf] = strconv.FormatUint(l.u, 10)
 		} else {
-			v = "\"" + l.s + "\""
+			e.members[l.leaf] = "\"" + l.s + "\""
 		}
-		members[l.ifname] = append(members[l.ifname], member{l.leaf, "\"" + l.leaf + "\":" + v})
 	}
-	if len(ifnames) == 0 {
+	sort.Slice(out, func(i, j int) bool { return out[i].ifname < out[j].ifname })
+	return out
+}
+
+// v14JsonText renders entries as encoding/json renders the tree's document:
+// {"interface":[{<members sorted by name>}, ...]}; JSON_IETF prefixes the
+// top-level member with the module name.
+func v14JsonText(es []*v14JsonEntry, ietf bool) string {
+	if len(es) == 0 {
 		return "{}"
 	}
-	sort.Strings(ifnames)
 	var entries []string
-	for _, n := range ifnames {
-		ms := members[n]
-		sort.Slice(ms, func(i, j int) bool { return ms[i].name < ms[j].name }) // concrete names
-		var texts []string
-		for _, m := range ms {
-			texts = append(texts, m.text)
+	for _, e := range es {
+		names := make([]string, 0, len(e.members))
+		for n := range e.members {
+			names = append(names, n)
 		}
-		entries = append(entries, "{"+strings.Join(texts, ",")+"}")
+		sort.Strings(names)
+		var ms []string
+		for _, n := range names {
+			ms = append(ms, "\""+n+"\":"+e.members[n])
+		}
+		entries = append(entries, "{"+strings.Join(ms, ",")+"}")
 	}
 	top := "interface"
 	if ietf {
@@ -272,7 +311,7 @@ func v14Json(ls []*v14Leaf, keep func(*v14Leaf) bool, ietf bool) string {
 }
 
 // v14AssertJson: the single JSON message carries exactly the covered leaves.
-func v14AssertJson(ls []*v14Leaf, r *v14Request, msgs []*sdcpb.GetDataResponse, ietf bool) {
+func v14AssertJson(ls []*v14Leaf, sel func(*v14Leaf) bool, r *v14Request, msgs []*sdcpb.GetDataResponse, ietf bool) {
 	verifrt.Assert(len(msgs) == 1, "C14-json-one-message")
 	if len(msgs) != 1 {
 		return
@@ -290,15 +329,15 @@ func v14AssertJson(ls []*v14Leaf, r *v14Request, msgs []*sdcpb.GetDataResponse, 
 		return
 	}
 	got := string(doc)
-	want := v14Json(ls, func(l *v14Leaf) bool { return r.covers(l.path) }, ietf)
+	want := v14JsonText(v14JsonEntries(ls, func(l *v14Leaf) bool { return sel(l) && r.covers(l.path) }), ietf)
 	extended := false
 	for _, l := range ls {
-		if l.pres && r.bytePrefix(l.path) {
+		if l.pres && sel(l) && r.bytePrefix(l.path) {
 			extended = true
 		}
 	}
 	if extended {
-		wantByte := v14Json(ls, func(l *v14Leaf) bool { return r.covers(l.path) || r.bytePrefix(l.path) }, ietf)
+		wantByte := v14JsonText(v14JsonEntries(ls, func(l *v14Leaf) bool { return sel(l) && (r.covers(l.path) || r.bytePrefix(l.path)) }), ietf)
 		if got == wantByte {
 			// the document also holds the entry whose key textually extends the requested one
 			verifrt.Assert(false, "C14-json-content-exact/key-extends-requested-entry")
@@ -308,30 +347,120 @@ func v14AssertJson(ls []*v14Leaf, r *v14Request, msgs []*sdcpb.GetDataResponse, 
 	verifrt.Assert(got == want, "C14-json-content-exact")
 }
 
-// VerifGetData: MAIN datastore, CONFIG store content arbitrary over the
-// universe, one request (path set x encoding x data type).
+// v14AssertNoPanic names the situation of a panic inside Get.
+func v14AssertNoPanic(panicked bool, json bool, ls []*v14Leaf, sel func(*v14Leaf) bool, r *v14Request) {
+	if !panicked {
+		return
+	}
+	if json {
+		// what the byte-prefix read hands to the tree
+		read := func(l *v14Leaf) bool { return l.pres && sel(l) && (r.covers(l.path) || r.bytePrefix(l.path)) }
+		entries := map[string]bool{}
+		hasKey := map[string]bool{}
+		keyStored := map[string]bool{}
+		for _, l := range ls {
+			if l.keyVal != "" && l.pres && sel(l) {
+				keyStored[l.ifname] = true
+			}
+			if read(l) {
+				entries[l.ifname] = true
+				if l.keyVal != "" {
+					hasKey[l.ifname] = true
+				}
+			}
+		}
+		if len(entries) >= 2 {
+			notSelected, notStored := false, false
+			for n := range entries {
+				if !hasKey[n] {
+					if keyStored[n] {
+						notSelected = true
+					} else {
+						notStored = true
+					}
+				}
+			}
+			switch {
+			case notSelected:
+				// several list entries are rendered and one of them came without its key leaf,
+				// because the request names a leaf of that entry, not the entry
+				verifrt.Assert(false, "C14-get-does-not-panic/json-entry-key-leaf-not-requested")
+				return
+			case notStored:
+				// several list entries are rendered and the store holds one of them without its key leaf
+				verifrt.Assert(false, "C14-get-does-not-panic/json-entry-key-leaf-not-stored")
+				return
+			}
+		}
+	}
+	verifrt.Assert(false, "C14-get-does-not-panic")
+}
+
+// v14Encodings: param "encset" 0 = STRING, PROTO, (unknown encoding);
+// 1 = JSON, JSON_IETF; 2 = all five. param "onlyenc" (>= 0) pins one of
+// STRING, PROTO, unknown, JSON, JSON_IETF.
+func v14Encoding() sdcpb.Encoding {
+	all := []sdcpb.Encoding{sdcpb.Encoding_STRING, sdcpb.Encoding_PROTO, sdcpb.Encoding(7), sdcpb.Encoding_JSON, sdcpb.Encoding_JSON_IETF}
+	if ei := verifrt.Param("onlyenc", -1); ei >= 0 && ei < len(all) {
+		return all[ei]
+	}
+	encs := all[:3]
+	switch verifrt.Param("encset", 0) {
+	case 1:
+		encs = all[3:]
+	case 2:
+		encs = all
+	}
+	return encs[verifrt.Choice("req.encoding", len(encs))]
+}
+
+func v14PickRequest() *v14Request {
+	reqs := v14Requests()
+	// param "onlyreq" (>= 0) pins the request (diagnosis)
+	ri := verifrt.Param("onlyreq", -1)
+	if ri < 0 || ri >= len(reqs) {
+		ri = verifrt.Choice("req.paths", len(reqs))
+	}
+	return reqs[ri]
+}
+
+// VerifGetData: MAIN datastore, CONFIG (and STATE) store content arbitrary
+// over the universe, one request (path set x encoding x data type).
 func VerifGetData() {
 	env := vNewEnv()
 	ctx := context.Background()
 	ls := v14Universe()
 	v14Arbitrary(ls, "")
+	hasState := false
 	for _, l := range ls {
+		if l.state {
+			hasState = true
+		}
 		if l.pres {
-			_ = env.model.WriteValue(ctx, "ds", &sdccache.Opts{Store: sdccache.StoreConfig, Path: [][]string{l.strs}}, vBytes(l.tv()))
+			st := sdccache.StoreConfig
+			if l.state {
+				st = sdccache.StoreState
+			}
+			_ = env.model.WriteValue(ctx, "ds", &sdccache.Opts{Store: st, Path: [][]string{l.strs}}, vBytes(l.tv()))
 		}
 	}
-	reqs := v14Requests()
-	r := reqs[verifrt.Choice("req.paths", len(reqs))]
-	// encodings: param "encodings" = number of encodings explored, in the order
-	// STRING, PROTO, JSON, JSON_IETF, (unknown)
-	encs := []sdcpb.Encoding{sdcpb.Encoding_STRING, sdcpb.Encoding_PROTO, sdcpb.Encoding_JSON, sdcpb.Encoding_JSON_IETF, sdcpb.Encoding(7)}
-	nenc := verifrt.Param("encodings", len(encs))
-	if nenc > len(encs) {
-		nenc = len(encs)
-	}
-	enc := encs[verifrt.Choice("req.encoding", nenc)]
+	r := v14PickRequest()
+	enc := v14Encoding()
 	dts := []sdcpb.DataType{sdcpb.DataType_CONFIG, sdcpb.DataType_ALL}
+	if hasState {
+		dts = append(dts, sdcpb.DataType_STATE)
+	}
 	dt := dts[verifrt.Choice("req.datatype", len(dts))]
+	// which stored leaves the data type selects
+	sel := func(l *v14Leaf) bool {
+		switch dt {
+		case sdcpb.DataType_CONFIG:
+			return !l.state
+		case sdcpb.DataType_STATE:
+			return l.state
+		}
+		return true
+	}
 	req := &sdcpb.GetDataRequest{
 		Name:      "ds",
 		Datastore: &sdcpb.DataStore{Type: sdcpb.Type_MAIN},
@@ -340,18 +469,28 @@ func VerifGetData() {
 		Encoding:  enc,
 	}
 	verifrt.Reach("state-built")
-	msgs, err := v14Get(env, req)
+	msgs, err, panicked := v14Get(env, req)
 	verifrt.Reach("get-returned")
+	isJson := enc == sdcpb.Encoding_JSON || enc == sdcpb.Encoding_JSON_IETF
+	v14AssertNoPanic(panicked, isJson, ls, sel, r)
+	if panicked {
+		return
+	}
 
 	if enc == sdcpb.Encoding(7) {
+		verifrt.Reach("unknown-encoding")
 		verifrt.Assert(err != nil, "C14-unknown-encoding-is-error")
 		verifrt.Assert(len(msgs) == 0, "C14-error-without-data")
 		return
 	}
 	if r.unknown {
 		verifrt.Reach("unknown-path")
-		verifrt.Assert(err != nil, "C14-unknown-path-is-error")
-		verifrt.Assert(len(msgs) == 0, "C14-error-without-data")
+		if r.unknownKey {
+			verifrt.Assert(err != nil, "C14-unknown-path-is-error/unknown-key-name")
+		} else {
+			verifrt.Assert(err != nil, "C14-unknown-path-is-error")
+		}
+		verifrt.Assert(len(msgs) == 0 || err == nil, "C14-error-without-data")
 		return
 	}
 	verifrt.Assert(err == nil, "C14-valid-request-accepted")
@@ -361,12 +500,446 @@ func VerifGetData() {
 	switch enc {
 	case sdcpb.Encoding_STRING, sdcpb.Encoding_PROTO:
 		verifrt.Reach("per-leaf-encoding")
-		v14AssertUpdates(ls, r, msgs)
+		v14AssertUpdates(ls, sel, r, msgs)
 	case sdcpb.Encoding_JSON:
 		verifrt.Reach("json-encoding")
-		v14AssertJson(ls, r, msgs, false)
+		v14AssertJson(ls, sel, r, msgs, false)
 	case sdcpb.Encoding_JSON_IETF:
 		verifrt.Reach("json-encoding")
-		v14AssertJson(ls, r, msgs, true)
+		v14AssertJson(ls, sel, r, msgs, true)
+	}
+}
+
+// ---- JSON content without encoding/json
+
+// v14JsonTree repeats the statement sequence of handleGetDataUpdatesJSON up to
+// (not including) json.Marshal: the engine has no model of encoding/json
+// (reflect over unsafe pointers). Every callee is the real one: getStores,
+// cacheClient.ReadCh, schemaClient.ToPath, the tree and its ToJson/ToJsonIETF.
+func v14JsonTree(ctx context.Context, d *Datastore, req *sdcpb.GetDataRequest, paths [][]string, ietf bool) (any, error) {
+	name := req.GetName()
+	treeSCC := tree.NewTreeCacheClient(d.Name(), d.cacheClient)
+	tc := tree.NewTreeContext(treeSCC, d.schemaClient, "")
+	root, err := tree.NewTreeRoot(ctx, tc)
+	if err != nil {
+		return nil, err
+	}
+	flagsExisting := tree.NewUpdateInsertFlags()
+	for _, store := range getStores(req) {
+		in := d.cacheClient.ReadCh(ctx, name, &cache.Opts{
+			Store:    store,
+			Owner:    req.GetDatastore().GetOwner(),
+			Priority: req.GetDatastore().GetPriority(),
+		}, paths, 0)
+		for upd := range in {
+			if len(upd.GetPath()) == 0 {
+				continue
+			}
+			scp, err := d.schemaClient.ToPath(ctx, upd.GetPath())
+			if err != nil {
+				return nil, err
+			}
+			switch len(scp.GetElem()) {
+			case 0:
+				continue
+			case 1:
+				if scp.GetElem()[0].GetName() == "" {
+					continue
+				}
+			}
+			root.AddCacheUpdateRecursive(ctx, upd, flagsExisting)
+		}
+	}
+	root.FinishInsertionPhase(ctx)
+	if ietf {
+		return root.ToJsonIETF(false)
+	}
+	return root.ToJson(false)
+}
+
+// v14JsonMember: does the document value v carry the rendered text want
+// (a number or a quoted string)?
+func v14JsonMember(v any, l *v14Leaf) bool {
+	switch x := v.(type) {
+	case uint64:
+		return verifrt.And(l.isUint, x == l.u)
+	case string:
+		if l.isUint {
+			return x == strconv.FormatUint(l.u, 10)
+		}
+		return x == l.s
+	}
+	return false
+}
+
+// v14AssertJsonDoc: the document (as the tree hands it to json.Marshal) holds
+// exactly the covered leaves.
+func v14AssertJsonDoc(ls []*v14Leaf, sel func(*v14Leaf) bool, r *v14Request, doc any, ietf bool) {
+	top := "interface"
+	if ietf {
+		top = "sdcio_model_if:interface"
+	}
+	covered := func(l *v14Leaf) bool { return l.pres && sel(l) && r.covers(l.path) }
+	m, ok := doc.(map[string]any)
+	verifrt.Assert(ok, "C14-json-document-is-object")
+	if !ok {
+		return
+	}
+	var list []any
+	for k, v := range m {
+		if k != top {
+			verifrt.Assert(false, "C14-json-no-member-outside-request")
+			continue
+		}
+		list, _ = v.([]any)
+	}
+	seen := map[string]bool{} // leaf tag
+	for _, ev := range list {
+		em, ok := ev.(map[string]any)
+		verifrt.Assert(ok, "C14-json-entry-is-object")
+		if !ok {
+			continue
+		}
+		ifname, _ := em["name"].(string)
+		known := false
+		anyCovered := false
+		for _, l := range ls {
+			if l.ifname == ifname {
+				known = true
+				if covered(l) {
+					anyCovered = true
+				}
+			}
+		}
+		verifrt.Assert(known, "C14-json-entry-is-stored")
+		if !known {
+			continue
+		}
+		if !anyCovered {
+			extended := false
+			for _, l := range ls {
+				if l.ifname == ifname && l.pres && sel(l) && r.bytePrefix(l.path) {
+					extended = true
+				}
+			}
+			if extended {
+				verifrt.Assert(false, "C14-json-no-entry-outside-request/key-extends-requested-entry")
+			} else {
+				verifrt.Assert(false, "C14-json-no-entry-outside-request")
+			}
+			continue
+		}
+		for k, v := range em {
+			var leaf *v14Leaf
+			for _, l := range ls {
+				if l.ifname == ifname && l.leaf == k {
+					leaf = l
+				}
+			}
+			if k == "name" {
+				// the key member is implied by the path of the entry's leaves
+				continue
+			}
+			if leaf == nil || !covered(leaf) {
+				verifrt.Assert(false, "C14-json-no-member-outside-request")
+				continue
+			}
+			verifrt.Assert(!seen[leaf.tag], "C14-json-leaf-once")
+			seen[leaf.tag] = true
+			verifrt.Assert(v14JsonMember(v, leaf), "C14-json-value-as-stored")
+		}
+		for _, l := range ls {
+			if l.ifname == ifname && l.keyVal != "" && covered(l) {
+				seen[l.tag] = true
+			}
+		}
+	}
+	for _, l := range ls {
+		if covered(l) {
+			verifrt.Assert(seen[l.tag], "C14-json-every-leaf-below-request-present")
+		}
+	}
+}
+
+// VerifGetDataJsonTree: the content of the JSON / JSON_IETF document for the
+// MAIN datastore. Get itself is called too (request validation, reader up to
+// json.Marshal); the document is taken from v14JsonTree.
+func VerifGetDataJsonTree() {
+	env := vNewEnv()
+	ctx := context.Background()
+	ls := v14Universe()
+	v14Arbitrary(ls, "")
+	for _, l := range ls {
+		if l.pres {
+			st := sdccache.StoreConfig
+			if l.state {
+				st = sdccache.StoreState
+			}
+			_ = env.model.WriteValue(ctx, "ds", &sdccache.Opts{Store: st, Path: [][]string{l.strs}}, vBytes(l.tv()))
+		}
+	}
+	// the running store holds the key leaf of every entry it holds a leaf of
+	// (the sync writes keys as leaves); param "freekeys" = 1 lifts this
+	if verifrt.Param("freekeys", 0) == 0 {
+		for _, k := range ls {
+			if k.keyVal == "" {
+				continue
+			}
+			for _, l := range ls {
+				if l.ifname == k.ifname && l.pres {
+					verifrt.Assume(k.pres)
+				}
+			}
+		}
+	}
+	r := v14PickRequest()
+	verifrt.Assume(!r.unknown)
+	ietf := verifrt.Choice("req.ietf", 2) == 1
+	enc := sdcpb.Encoding_JSON
+	if ietf {
+		enc = sdcpb.Encoding_JSON_IETF
+	}
+	req := &sdcpb.GetDataRequest{
+		Name:      "ds",
+		Datastore: &sdcpb.DataStore{Type: sdcpb.Type_MAIN},
+		Path:      r.paths,
+		DataType:  sdcpb.DataType_CONFIG,
+		Encoding:  enc,
+	}
+	var paths [][]string
+	for _, p := range r.paths {
+		paths = append(paths, vToStrings(p))
+	}
+	sel := func(l *v14Leaf) bool { return !l.state }
+	verifrt.Reach("state-built")
+	panicked := false
+	var doc any
+	var err error
+	func() {
+		defer func() {
+			if rec := recover(); rec != nil {
+				panicked = true
+			}
+		}()
+		doc, err = v14JsonTree(ctx, env.ds, req, paths, ietf)
+	}()
+	verifrt.Reach("document-built")
+	v14AssertNoPanic(panicked, true, ls, sel, r)
+	if panicked {
+		return
+	}
+	verifrt.Assert(err == nil, "C14-valid-request-accepted")
+	if err != nil {
+		return
+	}
+	v14AssertJsonDoc(ls, sel, r, doc, ietf)
+}
+
+// ---- INTENDED selection
+
+// VerifGetDataIntended: Datastore{Type: INTENDED}. The intended store holds
+// the leaves of two intents A and B; the request selects the store as a whole
+// (no owner, priority 0) or one intent (owner, priority).
+func VerifGetDataIntended() {
+	env := vNewEnv()
+	ctx := context.Background()
+	owners := []string{"A", "B"}
+	prio := map[string]int32{}
+	for _, o := range owners {
+		p := verifrt.Int32("prio" + o)
+		verifrt.Assume(verifrt.And(p >= 1, p < 1000))
+		prio[o] = p
+	}
+	verifrt.Assume(prio["A"] != prio["B"])
+	content := map[string][]*v14Leaf{}
+	for _, o := range owners {
+		ls := []*v14Leaf{
+			v14NewLeaf("L0", "lo1", "mtu", true),
+			v14NewLeaf("L1", "lo1", "name", false),
+			v14NewLeaf("L2", "lo10", "mtu", true),
+			v14NewLeaf("L3", "lo10", "name", false),
+		}
+		for _, l := range ls {
+			if l.keyVal != "" {
+				continue
+			}
+			if verifrt.Bool("pres." + l.tag + "." + o) {
+				l.pres = true
+				l.u = uint64(verifrt.IntRange("val."+l.tag+"."+o, 1000, 9999))
+			}
+		}
+		// an intent holds the key leaf of every entry it has a leaf of
+		for _, k := range ls {
+			if k.keyVal == "" {
+				continue
+			}
+			for _, l := range ls {
+				if l.keyVal == "" && l.ifname == k.ifname && l.pres {
+					k.pres = true
+				}
+			}
+		}
+		content[o] = ls
+		for _, l := range ls {
+			if l.pres {
+				_ = env.model.WriteValue(ctx, "ds", &sdccache.Opts{Store: sdccache.StoreIntended, Path: [][]string{l.strs}, Owner: o, Priority: prio[o]}, vBytes(l.tv()))
+			}
+		}
+	}
+	r := v14PickRequest()
+	enc := v14Encoding()
+	verifrt.Assume(enc != sdcpb.Encoding_JSON && enc != sdcpb.Encoding_JSON_IETF)
+	dts := []sdcpb.DataType{sdcpb.DataType_CONFIG, sdcpb.DataType_ALL, sdcpb.DataType_STATE}
+	dt := dts[verifrt.Choice("req.datatype", len(dts))]
+	byOwner := verifrt.Choice("req.selection", 2) == 1
+	ds := &sdcpb.DataStore{Type: sdcpb.Type_INTENDED}
+	if byOwner {
+		ds.Owner = "A"
+		ds.Priority = prio["A"]
+	}
+	req := &sdcpb.GetDataRequest{Name: "ds", Datastore: ds, Path: r.paths, DataType: dt, Encoding: enc}
+	verifrt.Reach("state-built")
+	msgs, err, panicked := v14Get(env, req)
+	verifrt.Reach("get-returned")
+	verifrt.Assert(!panicked, "C14-get-does-not-panic")
+	if panicked {
+		return
+	}
+	if dt == sdcpb.DataType_STATE {
+		verifrt.Reach("unsupported-combination")
+		verifrt.Assert(err != nil, "C14-state-of-intended-is-error")
+		verifrt.Assert(len(msgs) == 0, "C14-error-without-data")
+		return
+	}
+	if enc == sdcpb.Encoding(7) {
+		verifrt.Assert(err != nil, "C14-unknown-encoding-is-error")
+		verifrt.Assert(len(msgs) == 0, "C14-error-without-data")
+		return
+	}
+	if r.unknown {
+		verifrt.Reach("unknown-path")
+		if r.unknownKey {
+			verifrt.Assert(err != nil, "C14-unknown-path-is-error/unknown-key-name")
+		} else {
+			verifrt.Assert(err != nil, "C14-unknown-path-is-error")
+		}
+		verifrt.Assert(len(msgs) == 0 || err == nil, "C14-error-without-data")
+		return
+	}
+	verifrt.Assert(err == nil, "C14-valid-request-accepted")
+	if err != nil {
+		return
+	}
+	isRoot := len(r.paths) == 1 && len(r.paths[0].GetElem()) == 0
+	if byOwner {
+		verifrt.Reach("one-intent")
+	} else {
+		verifrt.Reach("whole-store")
+	}
+	// the owners the request selects
+	var sel []string
+	if byOwner {
+		sel = []string{"A"}
+	} else {
+		sel = owners
+	}
+	ref := content["A"] // paths of the universe
+	count := map[string]int{}
+	for _, m := range msgs {
+		for _, n := range m.GetNotification() {
+			for _, u := range n.GetUpdate() {
+				pid := vPathID(u.GetPath())
+				idx := -1
+				for i, l := range ref {
+					if l.id() == pid {
+						idx = i
+					}
+				}
+				if idx < 0 {
+					verifrt.Assert(false, "C14-intended-delivered-leaf-is-stored")
+					continue
+				}
+				if !r.covers(ref[idx].path) {
+					if r.bytePrefix(ref[idx].path) {
+						verifrt.Assert(false, "C14-intended-no-leaf-outside-request/key-extends-requested-entry")
+					} else {
+						verifrt.Assert(false, "C14-intended-no-leaf-outside-request")
+					}
+					continue
+				}
+				// the value is the value some selected owner stores there
+				some := false
+				isRuling := false
+				stored := false
+				for _, o := range sel {
+					l := content[o][idx]
+					if !l.pres {
+						continue
+					}
+					stored = true
+					same := v14SameValue(l, u.GetValue(), l.u, l.s)
+					some = verifrt.Or(some, same)
+					wins := true
+					for _, o2 := range sel {
+						if o2 != o && content[o2][idx].pres {
+							wins = verifrt.And(wins, prio[o] < prio[o2])
+						}
+					}
+					isRuling = verifrt.Or(isRuling, verifrt.And(wins, same))
+				}
+				if !stored {
+					verifrt.Assert(false, "C14-intended-delivered-leaf-is-stored")
+					continue
+				}
+				verifrt.Assert(some, "C14-intended-value-as-stored")
+				verifrt.Assert(isRuling, "C14-intended-value-is-the-ruling-one")
+				count[ref[idx].tag]++
+			}
+		}
+	}
+	// every stored path the request covers is returned
+	for idx, l := range ref {
+		definers := 0
+		for _, o := range sel {
+			if content[o][idx].pres {
+				definers++
+			}
+		}
+		if definers == 0 || !r.covers(l.path) {
+			continue
+		}
+		if count[l.tag] >= 1 {
+			continue
+		}
+		// name the situation
+		requestAbove := false
+		for _, q := range r.paths {
+			if v14Covers(q, l.path) && len(q.GetElem()) < len(l.path.GetElem()) {
+				requestAbove = true
+			}
+			if v14Covers(q, l.path) && len(q.GetElem()) == len(l.path.GetElem()) {
+				requestAbove = false
+				break
+			}
+		}
+		// (ref is in store key order: "interface,lo1,..." sorts before "interface,lo10,...")
+		shadowedBefore := false
+		if !byOwner {
+			for j := 0; j < idx; j++ {
+				if r.covers(ref[j].path) && content["A"][j].pres && content["B"][j].pres {
+					shadowedBefore = true
+				}
+			}
+		}
+		switch {
+		case isRoot:
+			verifrt.Assert(false, "C14-intended-every-path-below-request-returned/root-request")
+		case byOwner && requestAbove:
+			verifrt.Assert(false, "C14-intended-every-path-below-request-returned/intent-selected-and-request-above-leaf")
+		case shadowedBefore:
+			verifrt.Assert(false, "C14-intended-every-path-below-request-returned/after-path-defined-by-two-intents")
+		default:
+			verifrt.Assert(false, "C14-intended-every-path-below-request-returned")
+		}
 	}
 }
